@@ -168,6 +168,17 @@ Fixpoint mon_run (F : list formula) (d : dict) (w : trace) (k0 len : nat) : dict
       (d2, v :: vs)
   end.
 
+(* all specs' values of every update: what ast.results holds for the roots, i.e.
+   what get_value(name) returns for every assertion / sub-specification name *)
+Fixpoint mon_run_all (F : list formula) (d : dict) (w : trace) (k0 len : nat) : dict * list (list V) :=
+  match len with
+  | 0 => (d, [])
+  | S len' =>
+      let '(d1, vs) := visit_forest (row w k0) F d [] in
+      let '(d2, vss) := mon_run_all F d1 w (S k0) len' in
+      (d2, vs :: vss)
+  end.
+
 (* the reset visitor: visits children, then resets the node's operation *)
 Fixpoint reset_visit (p : formula) (d : dict) {struct p} : dict :=
   match p with
